@@ -32,6 +32,9 @@ type ICase struct {
 	SameKeyReader bool     `json:"same_key_reader"` // B = reader on key 0 next to reader H (no writer waiting)
 	Warm          []int    `json:"warm"`            // lock/unlock cycles per key 0,1,2 before the scenario (promotes entries in the underlying map)
 	Fresh         int      `json:"fresh"`           // number of additional never-seen keys touched first (shapes the map: 0..20)
+	// OtherObject: B acquires key 0 - the very key H holds - but on a SECOND keyed-mutex value of the same type:
+	// two values must never share anything
+	OtherObject bool `json:"other_object,omitempty"`
 }
 
 func RunIndep(c ICase) pbt.Outcome {
@@ -125,8 +128,19 @@ func RunIndep(c ICase) pbt.Outcome {
 		startClear()
 	}
 	// ---- B
+	lb := l
+	if c.OtherObject {
+		if c.RW {
+			lb = locker{krw: &sync2.KeyedRWMutex[int]{}}
+		} else {
+			lb = locker{km: &sync2.KeyedMutex[int]{}}
+		}
+	}
 	bKey, bKind := 1, c.BKind
-	if c.SameKeyReader {
+	if c.OtherObject {
+		bKey = 0
+	}
+	if c.SameKeyReader && !c.OtherObject {
 		bKey = 0
 		if isWrite(bKind) {
 			bKind = "rlock"
@@ -134,14 +148,17 @@ func RunIndep(c ICase) pbt.Outcome {
 	}
 	b := &actor{}
 	start(b, func() bool {
-		ok := l.acquire(bKind, bKey)
+		ok := lb.acquire(bKind, bKey)
 		if ok {
-			l.release(bKind, bKey)
+			lb.release(bKind, bKey)
 		}
 		return ok
 	})
 	fin, state, timedOut := gstate.WaitDoneOrBlockedIn(*b.gid.Load(), gstate.SyncBlocked, b.returned.Load, 20*time.Second)
-	desc := fmt.Sprintf("%s(key %d) while key 0 is held (%s) with %d goroutine(s) waiting for it%s", kindName(bKind), bKey, c.Holder, len(c.Waiters), map[bool]string{true: " and a ClearKey of an idle key in progress", false: ""}[c.Clear])
+	if c.OtherObject {
+		defer func() {}()
+	}
+	desc := map[bool]string{true: "on a SECOND keyed-mutex value: ", false: ""}[c.OtherObject] + fmt.Sprintf("%s(key %d) while key 0 is held (%s) with %d goroutine(s) waiting for it%s", kindName(bKind), bKey, c.Holder, len(c.Waiters), map[bool]string{true: " and a ClearKey of an idle key in progress", false: ""}[c.Clear])
 	verdict := ""
 	switch {
 	case timedOut:
@@ -192,7 +209,7 @@ func kindName(k string) string {
 var specIndep = pbt.Register(&pbt.Spec[ICase]{
 	Property: "C09", Name: "C09.indep",
 	Rule: "gated independence scenarios (free-running goroutines): H holds key 0 (Lock or RLock) and releases it only after the verdict; 0..2 goroutines wait for key 0; optionally ClearKey of an idle warmed-up key runs meanwhile; " +
-		"then B does Lock/TryLock/RLock/TryRLock on the free key 1 (or joins key 0 as a second reader when only readers are around). B must return (true) while H still holds key 0; B seen blocked in a sync primitive " +
+		"then B does Lock/TryLock/RLock/TryRLock on the free key 1 (or joins key 0 as a second reader when only readers are around, or - one case in six - takes key 0 itself on a SECOND keyed-mutex value). B must return (true) while H still holds key 0; B seen blocked in a sync primitive " +
 		"(goroutine state, confirmed on two dumps) or a Try* returning false is a violation - sound because H's release is gated on B. Keys are warmed by 0..3 lock/unlock cycles and 0..20 other keys are touched first " +
 		"(shapes the underlying map: promoted / dirty-only entries). non-trivial = at least one waiter or a ClearKey in progress",
 	Gen: func(t *rapid.T) ICase {
@@ -221,6 +238,7 @@ var specIndep = pbt.Register(&pbt.Spec[ICase]{
 		}
 		c.Warm = []int{rapid.IntRange(0, 3).Draw(t, "w0"), rapid.IntRange(0, 3).Draw(t, "w1"), rapid.IntRange(1, 3).Draw(t, "w2")}
 		c.Fresh = rapid.SampledFrom([]int{0, 0, 1, 3, 15, 20}).Draw(t, "fresh")
+		c.OtherObject = rapid.IntRange(0, 5).Draw(t, "otherobject") == 0
 		return c
 	},
 	Run: RunIndep, Quick: 400, Thorough: 4000, Crashy: true, Retries: 5,
